@@ -14,7 +14,10 @@
 (* c: n, m, sels (sel value of slave 1..m; <<0>> for the arbiter),         *)
 (*    badsels (sel values that select no slave), minlen, maxlen, bubbles,  *)
 (*    npar (1 or 2 packet tags per master),                                *)
-(*    cap (beats a port may buffer; 0 for the combinational elements).     *)
+(*    cap (beats a port may buffer; 0 for the combinational elements),     *)
+(*    junk (1: a master that offers nothing may drive arbitrary data,      *)
+(*    `last` and param - <<0, jdata, 1, jparam>> stands for it; a field of *)
+(*    newer configuration records only).                                   *)
 (* Environment: every master holds an unaccepted offer; `sel` is part of   *)
 (* the offer of a packet's first beat (steady until that beat is accepted) *)
 (* and free at all other times; slaves drive ready freely.                 *)
@@ -53,10 +56,13 @@ MRdy(o, i) == o[i]
 SV(c, o, j) == o[c.n + 4 * (j - 1) + 1]
 STok(c, o, j) == <<o[c.n + 4 * (j - 1) + 2], o[c.n + 4 * (j - 1) + 3], o[c.n + 4 * (j - 1) + 4]>>
 
+Junk(c) == "junk" \in DOMAIN c /\ c.junk = 1
 MasterChoices(c, i) ==
   IF hold[i] # <<>> THEN { <<1, hold[i][1], hold[i][2], hold[i][3]>> }
   ELSE { <<1, Tag(c, i, ep[i].par, ep[i].k), l, ep[i].par + 1>> : l \in {x \in {0, 1} : LastAllowed(c, ep[i].k, x)} } \cup
-       (IF c.bubbles = 1 \/ ep[i].k = 0 THEN { <<0, 0, 0, 0>> } ELSE {})
+       (IF c.bubbles = 1 \/ ep[i].k = 0
+        THEN { <<0, 0, 0, 0>> } \cup (IF Junk(c) THEN { <<0, c.jdata, 1, c.jparam>> } ELSE {})
+        ELSE {})
 SelChoices(c) ==
   IF selh >= 0 THEN {selh} ELSE {c.sels[j] : j \in 1..c.m} \cup {c.badsels[j] : j \in 1..Len(c.badsels)}
 Inputs(c) ==
